@@ -40,15 +40,21 @@ def main():
         return
     extra = dict(getattr(mod, 'META', {}))
     extra['engine'] = 'pathsym (per-path symbolic execution of the instrumented pydl source, z3 %s)' % __import__('z3').get_version_string()
-    if hasattr(mod, 'validate'):
-        extra['traces_validated'] = mod.validate(seed, a.tier)
+    tvp = common.start_translation_validation(a.pid, a.tier) if not a.only else None
+    validated = mod.validate(seed, a.tier) if hasattr(mod, 'validate') else 0
     results = common.run_obligations(obs, nproc=a.nproc)
+    tv = common.finish_tv(tvp)
+    extra['traces_validated'] = validated + max(tv.get('tests_passed', 0), 0)
     from pathsym import loader
     extra['source_sha256'] = loader.source_digest()
-    extra['translation_validation'] = {'instrumented_modules': sorted(set(loader.STATS['modules']))}
+    extra['translation_validation'] = {'instrumented_modules': sorted(set(loader.STATS['modules'])), 'repo_tests_through_instrumented_modules': tv,
+                                       'regex_interpreter_vs_re_comparisons': validated}
     if hasattr(mod, 'post'):
         mod.post(a.tier, results, extra)
     rc = common.finish(a.pid, a.tier, seed, results, t0, extra)
+    if tv.get('tests_failed', 0) > 0 and rc == 0:
+        print('HARNESS-ERROR property=%s the instrumented modules fail repository tests that the plain modules pass: %s' % (a.pid, tv.get('failed')))
+        rc = common.EXIT_HARNESS
     sys.exit(rc)
 
 
